@@ -232,6 +232,17 @@ void World::checkPlansStorage(int i, const Op& op, const Obs& before) {
 		}
 		if (!found) { std::snprintf(b, sizeof b, "%s: region %d issued %s(%d)%s on behalf of its plan, but no stored task has that destination and payload", h.role.c_str(), q.origin, kindName(q.kind), q.dest, q.hasPayload ? " with payload" : ""); violate("C06.issued_matches_task", b, i); return; }
 		if (!originOk) { std::snprintf(b, sizeof b, "%s: region %d executed a task to %d whose origin was not active-and-succeeded in this step", h.role.c_str(), q.origin, q.dest); violate("C06.issued_matches_task", b, i); return; }
+		// ... and no earlier task of that plan has an inactive origin (take the first stored task that fits; earlier ones must all have active origins)
+		{
+			checked("C06.order");
+			bool blocked = false, fits = false;
+			for (auto& t : pl) {
+				const bool match = t.dest == q.dest && (q.method == 99 || (t.hasPayload == q.hasPayload && (!t.hasPayload || t.payload == q.payload))) && before.active[size_t(t.origin)] && succ[size_t(t.origin)];
+				if (match && !blocked) { fits = true; break; }
+				if (!before.active[size_t(t.origin)]) blocked = true;
+			}
+			if (!fits) { std::snprintf(b, sizeof b, "%s: region %d executed its task to %d although an earlier task of that plan has an inactive origin", h.role.c_str(), q.origin, q.dest); violate("C06.order", b, i); return; }
+		}
 		if (!kindOk) { std::snprintf(b, sizeof b, "%s: region %d executed its task to %d as '%s', the task was created with another kind", h.role.c_str(), q.origin, q.dest, kindName(q.kind)); violate("C06.task_kind", b, i, q.kind == K_CHANGE ? "plan_task_kind_ignored" : ""); return; }
 	}
 	// executed tasks are removed, exactly once each: per region, stored-before-minus-stored-after must equal what was issued (when nothing else edited the plans afterwards)
